@@ -844,11 +844,22 @@ def run(ctx):
     check_signatures(ctx, table)
     check_memory_primitives(ctx)
     check_fault_line(ctx)
+    # "execution stops at that instruction": a fault must leave the state untouched (rule shared with C13)
+    from . import c13
+    c13.check_fault_atomicity(ctx, "C04.F")
+    # 0 is an ordinary id / value / address: nothing int-valued may be tested by truthiness (nqsa/truth.py)
+    from .. import truth
+    truth.check(ctx, "C04.Z", ['netqasm.backend.executor', 'netqasm.sdk.shared_memory'])
 
 
 X = "netqasm/backend/executor.py"
 C = "netqasm/lang/instr/core.py"
 SEEDS = [
+    dict(id="c04-qalloc-marks-before-check", file=X, expect="C04.F", construct="_allocate_physical_qubit",
+         old="        if unit_module[virtual_address] is None:\n            if physical_address is None:\n                physical_address = self._get_unused_physical_qubit()\n                self._used_physical_qubit_addresses.add(physical_address)\n            unit_module[virtual_address] = physical_address",
+         new="        if physical_address is None:\n            physical_address = self._get_unused_physical_qubit()\n        if unit_module[virtual_address] is None:\n            unit_module[virtual_address] = physical_address"),
+    dict(id="c04-store-writes-before-index-check", file=X, expect="C04.F", construct="_instr_array",
+         old="        length = self._get_register(app_id, instr.size)\n", new="        length = self._get_register(app_id, instr.size)\n        self._set_register(app_id, instr.size, length)\n"),
     dict(id="c04-lea-no-pc", file=X, expect="C04.PC", construct="_instr_lea", old="    @inc_program_counter\n    def _instr_lea(", new="    def _instr_lea("),
     dict(id="c04-bge-gt", file=C, expect="C04.B", construct="bge", old="        return a >= b", new="        return a > b"),
     dict(id="c04-bnz", file=C, expect="C04.B", construct="bnz", old="        return a != 0", new="        return a > 0"),
